@@ -42,6 +42,7 @@ import ast
 import itertools
 
 from ..cfg import NORMAL
+from ..dataflow import defs_of
 from ..facts import atoms, facts_at
 from ..facts import key as fact_key
 from ..model import contains_await, dotted, parent, unparse, walk_no_nested
@@ -52,7 +53,6 @@ from ._util_B import (
     all_origins,
     any_origin,
     arg_of,
-    branch_succ,
     calls_in,
     class_test,
     class_test_extras,
@@ -329,19 +329,81 @@ def r3(ctx):
     def is_slot(e):
         return any_origin(f, e, lambda o: isinstance(o, ast.Subscript) and is_self_attr(o.value, "queues") and is_param(f, o.slice, cons))
 
-    def known(e, value: bool):
-        """three-valued truth of a guard given that `consumer in self.queues` is `value`"""
-        if isinstance(e, ast.Compare) and len(e.ops) == 1 and is_param(f, e.left, cons) and is_self_attr(e.comparators[0], "queues"):
-            if isinstance(e.ops[0], ast.In):
-                return value
-            if isinstance(e.ops[0], ast.NotIn):
-                return not value
-        if isinstance(e, ast.UnaryOp) and isinstance(e.op, ast.Not):
-            v = known(e.operand, value)
-            return None if v is None else not v
+    def is_membership(a):
+        """canonical atom `consumer in self.queues` (facts.atoms folds `not in` / `not` into the truth value)"""
+        return (
+            isinstance(a, ast.Compare)
+            and len(a.ops) == 1
+            and isinstance(a.ops[0], ast.In)
+            and is_param(f, a.left, cons)
+            and all_origins(f, a.comparators[0], lambda o: is_self_attr(o, "queues"))
+        )
+
+    def flag_def(name: str):
+        """The single plain assignment of a local flag (assigned once, outside every loop), or None."""
+        ds = defs_of(f, name)
+        if len(ds) != 1 or ds[0].kind not in ("assign", "walrus") or ds[0].index is not None or ds[0].value is None:
+            return None
+        d = ds[0]
+        ids = list(g.node_containing(d.stmt) if d.kind == "walrus" else (g.ids_of(d.stmt) or g.node_containing(d.stmt)))
+        if len(ids) != 1 or ids[0] in g.reach(ids):
+            return None
+        return d.value, ids[0]
+
+    def implied(e, truth: bool, at: int, depth: int = 0) -> set[tuple[bool, int]]:
+        """(value, evaluation node) pairs: the values of `consumer in self.queues` implied by the expression `e`
+        (evaluated at CFG node `at`) being `truth`, with the CFG node that evaluated the membership.  Any spelling of
+        the test is read alike (sfverif.facts.atoms); a local flag assigned once is followed to its assignment,
+        which is then the evaluation node (the value of the flag is the membership *there*, not at the test)."""
+        out: set[tuple[bool, int]] = set()
+        for a, v in atoms(e, truth):
+            if isinstance(a, ast.NamedExpr):
+                out |= implied(a.value, v, at, depth)
+            elif isinstance(a, ast.Name) and depth < 4:
+                fd = flag_def(a.id)
+                if fd is not None:
+                    out |= implied(fd[0], v, fd[1], depth + 1)
+            elif is_membership(a):
+                out.add((v, at))
+        return out
+
+    # per test node: the membership value each edge implies, and where the membership was evaluated
+    tests, evals = [], set()
+    cut_known: set[tuple[int, str]] = set()  # edges on which `consumer in self.queues` holds
+    cut_unknown: set[tuple[int, str]] = set()  # edges on which it does not
+    for n in g.nodes.values():
+        if n.kind != "test" or n.ast is None:
+            continue
+        on = {"t": implied(n.ast, True, n.id), "f": implied(n.ast, False, n.id)}
+        if not on["t"] and not on["f"]:
+            continue
+        tests.append(n)
+        for k, vs in on.items():
+            for v, at in vs:
+                evals.add(at)
+                (cut_known if v else cut_unknown).add((n.id, k))
+
+    def cut_path(dsts, cut_nodes, cut_edges):
+        """Shortest normal path entry -> dsts that enters no node of `cut_nodes` and follows no edge of `cut_edges`."""
+        dsts, cut_nodes = set(dsts), set(cut_nodes)
+        prev, todo = {g.entry: None}, [g.entry]
+        while todo:
+            nxt = []
+            for a in todo:
+                for b, k in g.succ[a]:
+                    if k not in NORMAL or (a, k) in cut_edges or b in prev:
+                        continue
+                    prev[b] = a
+                    if b in dsts:
+                        w = [b]
+                        while prev[w[-1]] is not None:
+                            w.append(prev[w[-1]])
+                        return list(reversed(w))
+                    if b not in cut_nodes:
+                        nxt.append(b)
+            todo = nxt
         return None
 
-    tests = [n for n in g.nodes.values() if n.kind == "test" and known(n.ast, True) is not None]
     deq = [n.id for n in g.nodes.values() if any(
         isinstance(a, ast.Await) and method_call(a.value, "get") and not a.value.args and is_slot(a.value.func.value)
         for a in n.walk())]
@@ -350,21 +412,36 @@ def r3(ctx):
     ctx.require(bool(deq), "C03.R3: Port.get does not await `self.queues[consumer].get()` any more")
     ok = bool(tests) and bool(inits)
     why = "" if ok else "no membership test / no _init_consumer(consumer) call"
+    witness = []
     if ok:
-        for t in tests:
-            unknown_kind = "t" if known(t.ast, False) else "f"
-            us = [u for u in branch_succ(g, t.id, unknown_kind) if u not in inits]
-            region = g.reach(us, avoid=inits, include_src=True) - set(inits)
-            hit = [d for d in deq if d in region]
-            if hit:
-                ok, why = False, "an unknown consumer reaches `" + g.nodes[hit[0]].text(60) + "` without _init_consumer"
-            susp = [s for s in g.suspension_nodes() if s in region and set(inits) & g.reach([s])]
-            if susp:
-                ok, why = False, "suspension point `" + g.nodes[susp[0]].text(60) + "` between the membership test and _init_consumer"
+        # (a) no dequeue without either `consumer in self.queues` established by a test or _init_consumer run before:
+        #     once true the membership stays true (R4: nobody removes a queue), so a flag computed earlier is as good
+        #     as the test itself on its "known" edge
+        w = cut_path(deq, set(inits) - set(deq), cut_known)
+        if w is not None:
+            ok, why, witness = False, "an unknown consumer reaches `" + g.nodes[w[-1]].text(60) + "` without _init_consumer", g.describe(w)
+        # (b) _init_consumer replaces the queue: it may only run where the consumer is known to be absent
+        if ok:
+            w = cut_path(inits, (), cut_unknown)
+            if w is not None:
+                ok, why, witness = False, (
+                    "`" + g.nodes[w[-1]].text(60) + "` can run for a consumer that already has a queue "
+                    "(the queue is replaced by a fresh replay: tokens are duplicated)"), g.describe(w)
+            elif any(set(inits) & g.reach([i], avoid=evals) for i in inits):
+                ok, why = False, "_init_consumer can run twice for the same consumer without a new membership test"
+        # (c) "absent" is only valid until the next suspension point: from a suspension no initialisation may be
+        #     reached without evaluating the membership again (the evaluation is the flag assignment for a flag)
+        if ok:
+            for s_ in sorted(g.suspension_nodes()):
+                w = g.path(s_, inits, avoid=evals)
+                if w is not None:
+                    ok, why, witness = False, (
+                        "suspension point `" + g.nodes[s_].text(60) + "` between the membership test and _init_consumer"), g.describe(w)
+                    break
         if ok and not all(g.dominates([t.id for t in tests] + inits, d) for d in deq):
             ok, why = False, "a dequeue is reachable without testing whether the consumer is known"
     ctx.ob("R3", "an unknown consumer is initialised (atomically with the test) before its first dequeue", ok, func=f,
-           node=f.node, instance="get:init-first", message=f"Port.get: {why}")
+           node=f.node, instance="get:init-first", message=f"Port.get: {why}", witness=witness)
     once = all(not (set(deq) & g.reach([d])) for d in deq) and g.escape(g.entry, deq) is None
     ctx.ob("R3", "every call dequeues exactly once from the consumer's queue", once, func=f, node=f.node, instance="get:one-dequeue",
            message="Port.get dequeues zero or several tokens on some path: a token is skipped or the caller gets None")
@@ -1090,6 +1167,10 @@ _ADD = f"{INTER}.add_inter_port"
 _FINIT = f"{FILTER}.__init__"
 SFILE = "streamflow/workflow/step.py"
 _IMPORT_ITT = "from streamflow.workflow.token import IterationTerminationToken\n"
+_GET_BODY = (
+    "if consumer not in self.queues:\n        self._init_consumer(consumer)\n        return await self.queues[consumer].get()\n"
+    "    else:\n        token = await self.queues[consumer].get()\n        self.queues[consumer].task_done()\n        return token"
+)
 
 VARIANTS = [
     # ---- R1
@@ -1188,6 +1269,28 @@ VARIANTS = [
     V("benign: positive membership test", CFILE, _GET,
       "if consumer not in self.queues:\n        self._init_consumer(consumer)\n        return await self.queues[consumer].get()\n    else:\n        token = await self.queues[consumer].get()\n        self.queues[consumer].task_done()\n        return token",
       "if consumer in self.queues:\n        token = await self.queues[consumer].get()\n        self.queues[consumer].task_done()\n        return token\n    self._init_consumer(consumer)\n    return await self.queues[consumer].get()", None),
+    # ---- R3 on branch facts: the membership test may be stored in a flag (evaluated at the assignment), spelled in any polarity
+    V("benign: get hoists the common await behind a first-retrieval flag (B12-6)", CFILE, _GET, _GET_BODY,
+      "first_get = consumer not in self.queues\n    if first_get:\n        self._init_consumer(consumer)\n    token = await self.queues[consumer].get()\n"
+      "    if not first_get:\n        self.queues[consumer].task_done()\n    return token", None),
+    V("benign: get with a positive `known` flag and guard clauses", CFILE, _GET, _GET_BODY,
+      "known = consumer in self.queues\n    if not known:\n        self._init_consumer(consumer)\n    token = await self.queues[consumer].get()\n"
+      "    if known:\n        self.queues[consumer].task_done()\n    return token", None),
+    V("benign: get binds the flag with a walrus in the test", CFILE, _GET, _GET_BODY,
+      "if (first_get := (consumer not in self.queues)):\n        self._init_consumer(consumer)\n    token = await self.queues[consumer].get()\n"
+      "    if not first_get:\n        self.queues[consumer].task_done()\n    return token", None),
+    V("get uses the first-retrieval flag with the wrong polarity", CFILE, _GET, _GET_BODY,
+      "first_get = consumer not in self.queues\n    if not first_get:\n        self._init_consumer(consumer)\n    token = await self.queues[consumer].get()\n"
+      "    if not first_get:\n        self.queues[consumer].task_done()\n    return token", "R3"),
+    V("get suspends between computing the flag and the initialisation", CFILE, _GET, _GET_BODY,
+      "first_get = consumer not in self.queues\n    await asyncio.sleep(0)\n    if first_get:\n        self._init_consumer(consumer)\n"
+      "    token = await self.queues[consumer].get()\n    if not first_get:\n        self.queues[consumer].task_done()\n    return token", "R3"),
+    V("get overwrites the flag before testing it", CFILE, _GET, _GET_BODY,
+      "first_get = consumer not in self.queues\n    first_get = bool(self.token_list)\n    if first_get:\n        self._init_consumer(consumer)\n"
+      "    token = await self.queues[consumer].get()\n    return token", "R3"),
+    V("get re-initialises a known consumer", CFILE, _GET, "    else:\n        token = await", "    else:\n        self._init_consumer(consumer)\n        token = await", "R3"),
+    V("get initialises unknown consumers only when the history is not empty", CFILE, _GET, "if consumer not in self.queues:",
+      "if consumer not in self.queues and self.token_list:", "R3"),
     V("benign: filter decision into a local", PFILE, _FPUT, "if isinstance(token, TerminationToken) or self.filter_function(token):",
       "admitted = isinstance(token, TerminationToken) or self.filter_function(token)\n    if admitted:", None),
     V("benign: filter port early return", PFILE, _FPUT, "if isinstance(token, TerminationToken) or self.filter_function(token):\n        super().put(token)\n    elif",
